@@ -458,3 +458,50 @@ func TestVerifRaceRelogon(t *testing.T) {
 	close(done)
 	wg.Wait()
 }
+
+// TestVerifRaceStopEarly: an application that stops the session the moment it reports itself logged
+// on - Stop overlaps the rest of the Logon processing (timers being started, logon event handlers).
+func TestVerifRaceStopEarly(t *testing.T) {
+	for round := 0; round < 4; round++ {
+		st := memory.NewStorage()
+		role := round % 2
+		var f *fx
+		peer, me := "CLI", "SRV"
+		if role == 0 {
+			f = newAcceptor(st, 1, 60, 50*time.Millisecond, "0")
+		} else {
+			f = newInitiator(st, 1, "0", "user", "pw", 50*time.Millisecond)
+			peer, me = "SRV", "CLI"
+		}
+		done := make(chan struct{})
+		var wg sync.WaitGroup
+		wg.Add(2)
+		go func() {
+			defer wg.Done()
+			for {
+				select {
+				case <-f.h.Outgoing():
+				case <-done:
+					return
+				}
+			}
+		}()
+		go func() {
+			defer wg.Done()
+			end := time.Now().Add(3 * time.Second)
+			for !f.s.IsLogged() && time.Now().Before(end) {
+			}
+			_ = f.s.Stop()
+		}()
+		lg := fixgen.CreateLogon("0", 1)
+		setHdr(lg.Header(), peer, me, 1)
+		_ = f.h.VerifServe(wire(lg))
+		lo := fixgen.CreateLogout()
+		setHdr(lo.Header(), peer, me, 2)
+		time.Sleep(20 * time.Millisecond)
+		_ = f.h.VerifServe(wire(lo))
+		time.Sleep(150 * time.Millisecond)
+		close(done)
+		wg.Wait()
+	}
+}
